@@ -42,6 +42,18 @@ void ezc3d::ParametersNS::GroupNS::Parameter::print() const
 
 void ezc3d::ParametersNS::GroupNS::Parameter::write(std::fstream &f, int groupIdx, std::streampos &dataStartPosition) const
 {
+    // The lengths, the number of dimensions and each dimension are stored on one byte each
+    // (and the sign of the name length is the lock flag)
+    if (name().size() > 127)
+        throw std::range_error("The name of the parameter " + name() + " is too long to be written in a c3d file (127 characters at most)");
+    if (description().size() > 255)
+        throw std::range_error("The description of the parameter " + name() + " is too long to be written in a c3d file (255 characters at most)");
+    if (_dimension.size() > 7)
+        throw std::range_error("The parameter " + name() + " has too many dimensions to be written in a c3d file (7 at most)");
+    for (unsigned int i=0; i<_dimension.size(); ++i)
+        if (_dimension[i] > 255)
+            throw std::range_error("A dimension of the parameter " + name() + " is too large to be written in a c3d file (255 at most)");
+
     int nCharName(static_cast<int>(name().size()));
     if (isLocked())
         nCharName *= -1;
@@ -106,6 +118,8 @@ void ezc3d::ParametersNS::GroupNS::Parameter::write(std::fstream &f, int groupId
     std::streampos actualPos(f.tellg());
     f.seekg(pos);
     int nCharToNext = int(actualPos - pos);
+    if (nCharToNext > 65535) // The offset to the next record is stored on two bytes
+        throw std::range_error("The parameter " + name() + " is too large to be written in a c3d file (65535 bytes at most)");
     f.write(reinterpret_cast<const char*>(&nCharToNext), 2*ezc3d::DATA_TYPE::BYTE);
     f.seekg(actualPos);
 }
